@@ -370,6 +370,33 @@ mut('scheduler-sync-relax-send', 'Scheduler::sync no longer requires a Send resu
     E())  # does not compile (sync_drain needs Send): negative control for 'build-failed'
 
 
+# ---- poll-side drain / DrainWaker -------------------------------------------------------------------------------------------------
+mut('drain_queue-wake_with-before-state', 'drain_queue installs the real waker before it has parked the queue', SF,
+    "                            self.queue.core.lock().expect(\"JobQueue core lock\").state = QueueState::WaitingForPoll(self.id);\n\n                            // Wake both the queue and the context\n                            let context_waker   = context.waker().clone();\n                            let queue_waker     = WakeQueue(Arc::clone(&self.queue), Arc::clone(&self.scheduler.core));\n                            let queue_waker     = Arc::new(queue_waker);\n                            let queue_waker     = task::waker(queue_waker);\n\n                            let wake_both       = DoubleWaker(Mutex::new(Some((queue_waker, context_waker))));\n                            let wake_both       = task::waker(Arc::new(wake_both));\n\n                            waker.wake_with(wake_both);",
+    "                            // Wake both the queue and the context\n                            let context_waker   = context.waker().clone();\n                            let queue_waker     = WakeQueue(Arc::clone(&self.queue), Arc::clone(&self.scheduler.core));\n                            let queue_waker     = Arc::new(queue_waker);\n                            let queue_waker     = task::waker(queue_waker);\n\n                            let wake_both       = DoubleWaker(Mutex::new(Some((queue_waker, context_waker))));\n                            let wake_both       = task::waker(Arc::new(wake_both));\n\n                            waker.wake_with(wake_both);\n                            self.queue.core.lock().expect(\"JobQueue core lock\").state = QueueState::WaitingForPoll(self.id);",
+    E(C06=['ORD-C06-drain']))
+
+mut('drainwaker-no-latch', 'DrainWaker forgets a wake that arrives before the real waker is installed', SF,
+    "                NotWoken                    => { *new_state = Woken; None },\n                Woken                       => { *new_state = Woken; None },",
+    "                NotWoken                    => { *new_state = NotWoken; None },\n                Woken                       => { *new_state = Woken; None },",
+    E(C06=['ORD-C06-drain']))
+
+mut('drainwaker-woken-not-woken', 'wake_with does not fire when the wake already happened', SF,
+    "                Woken                           => { *new_state = Woken; Some(new_waker) },",
+    "                Woken                           => { *new_state = WillWakeWithWaker(new_waker); None::<task::Waker> },",
+    E(C06=['ORD-C06-drain']))
+
+mut('doublewaker-one-only', 'DoubleWaker wakes only the polling task', SF,
+    "            waker1.wake();\n            waker2.wake();",
+    "            let _ = waker1;\n            waker2.wake();",
+    E(C06=['ORD-C06-drain']))
+
+mut('park-without-loop', 'run_one_job_now parks once without re-checking the state', JQ,
+    "                            loop {\n                                let current_state = { queue.core.lock().unwrap().state };\n                                match current_state {\n                                    QueueState::Running             => break,\n                                    QueueState::AwokenWhileRunning  => break,\n                                    QueueState::WaitingForUnpark    => (),\n                                    other                           => panic!(\"Queue was in unexpected state {:?}\", other)\n                                }\n\n                                // Park until we're awoken from the other thread (once awoken, we re-check the state)\n                                thread::park();\n                            }",
+    "                            // Park until we're awoken from the other thread\n                            thread::park();",
+    E(C06=['ORD-C06-drain']))
+
+
 def main():
     os.makedirs(MUT, exist_ok=True)
     index = {'mutants': []}
